@@ -603,8 +603,14 @@ func (w *World) CheckPendingGlobal(inst *Instance, pend map[wire.Hash]*wire.MsgT
 		}
 	}
 	// descendants of vanished conflicts must be gone too: a pending tx whose
-	// unconfirmed parent is neither pending nor confirmed has lost its parent
+	// unconfirmed parent is neither pending nor confirmed has lost its parent.
+	// (Only where the set of wallets is fixed: in histories that remove and
+	// re-import wallets "a coin of the wallet" has no fixed meaning over time -
+	// the parent may have gone with the removed wallet, not with the conflict.)
 	for h, tx := range pend {
+		if w.WalletsComeAndGo {
+			break
+		}
 		for _, in := range tx.TxIn {
 			ph := in.PreviousOutPoint.Hash
 			if _, on := w.Node.OnBestChain(ph); on {
